@@ -566,7 +566,7 @@ def run_xcache(task, tier, seed, col):
     """the on-disk cache is a cache too: registries that read a cache folder written by another interpreter run answer like one without"""
     from .c10 import case_xcache
 
-    for src in ("bundled", "generated"):
+    for src in ("bundled", "generated", "lines"):
         col.run_case(lambda c: case_xcache(c, col), {"source": src, "units": ["meter", "gram", "hour", "watt", "degree", "byte"], "hashseeds": [5, 2 + seed % 7, 13]})
 
 
